@@ -1221,7 +1221,7 @@ func (x *run) stepIdentMut(rs *repState, s *sim.Step) error {
 		err = i.CommitAsNeeded(rs.r.Sim)
 	}
 done:
-	if err != nil && rs.r.Cache != nil && rs.alive {
+	if err != nil && rs.r.Cache != nil && rs.alive && rs.r.C != nil && !rs.r.C.Crashed {
 		// Mutate stages the new version in the live identity and Commit refused it: nothing in the
 		// API takes a staged version back, so the only thing a client can do with that instance is
 		// to drop it. The session ends here (what a command does on an error) and a new one starts.
